@@ -76,7 +76,7 @@ def run(ctx):
 
     # the stall-resume scenarios must really have blocked the writer (otherwise they say nothing); judged only when
     # nothing was rejected (a changed relay may never block: that shows in the identity, not here)
-    nstall = [s for s in scns if s["kind"] == "stall"]
+    nstall = [s for s in scns if s["kind"] in ("stall", "stallclose")]
     if not ctx.violations:
         if len(stalls) != len(nstall):
             raise Machinery("dead driver: %d stall records for %d stall-resume scenarios" % (len(stalls), len(nstall)))
@@ -127,10 +127,11 @@ def run(ctx):
     cov["max_dispatch_us"] = max(e["max_us"] for e in lats)
     cov["steady_phases"] = len(steady)
     cov["slow_conn_drops_in_healthy_phases"] = sum(p["slow_conn"] for p in phases if p["steady"] == "healthy")
-    cov["stall_resume"] = [dict(scn=e["scn"], held_ms=e["held_ms"], flush_ms=e["flush_ms"], blocked_after_lines=e["blocked_at"] - e["stall_at"],
+    cov["stall_resume"] = [dict(scn=e["scn"], kind=e["kind"], held_ms=e["held_ms"], flush_ms=e["flush_ms"], blocked_after_lines=e["blocked_at"] - e["stall_at"],
                                 slow_conn_at_resume=e["slow_conn_resume"]) for e in stalls.values()]
     cov["rule"] = ("scenarios = endpoint behaviour (refuse, SYN-drop, black hole, 1 byte/10 ms, healthy, close after k bytes, "
-                   "stall-resume (stops reading for >= 12 flush periods with the writer blocked, never closes, reads to the end), mixed route with one bad endpoint%s) x (connbuf, iobuf, flush) settings %s, every Route.Dispatch call timed "
+                   "stall-resume (stops reading for >= 12 flush periods with the writer blocked, never closes, reads to the end), "
+                   "stall-close (closes while the writer is blocked), mixed route with one bad endpoint%s) x (connbuf, iobuf, flush) settings %s, every Route.Dispatch call timed "
                    "(evaluations = calls); distinct_nontrivial = latency records + steady phases whose identity involved > 0 lines"
                    % ("" if q else ", mid-stream behaviour switches", sorted({(s["connbuf"], s["iobuf"], s["flush_ms"]) for s in scns})))
     bh = [p for p in phases if p["endpoint"] == "blackhole"]
